@@ -363,6 +363,64 @@ theorem CF_set_float_elem : elemSetterOK flow_config_setting_set_float_elem "CON
 theorem CF_set_bool_elem : elemSetterOK flow_config_setting_set_bool_elem "CONFIG_TYPE_BOOL" "config_setting_set_bool" = true := by decide
 theorem CF_set_string_elem : elemSetterOK flow_config_setting_set_string_elem "CONFIG_TYPE_STRING" "config_setting_set_string" = true := by decide
 
+/-! ### destruction and string ownership (C16) -/
+
+def callDestructor : Ev := .s "setting->config->destructor(setting->hook)"
+def freeSetting : Ev := .s "__delete(setting)"
+def destroyKids : Ev := .s "__config_list_destroy(setting->value.list)"
+
+/-- `__config_setting_destroy`: the registered destructor is called for the setting's hook exactly when there is a hook and
+a destructor, exactly once, AFTER the children have been destroyed (post-order) and BEFORE the setting itself is freed,
+which is the last thing that happens; the name is freed when there is one, the string value only of a string, the child
+list only of an aggregate that has one; a NULL setting is left alone -/
+theorem CF_setting_destroy :
+    ∀ p ∈ traces flow_config_setting_destroy_impl,
+      (p.contains (.no "setting") = true → p = [.no "setting"]) ∧
+      (p.contains (.yes "setting") = true →
+        p.getLast? = some freeSetting ∧ count freeSetting p = 1 ∧
+        (p.contains callDestructor = true ↔ p.contains (.yes "setting->hook&&setting->config->destructor") = true) ∧
+        count callDestructor p ≤ 1 ∧
+        (p.contains callDestructor = true → before callDestructor freeSetting p = true) ∧
+        (p.contains callDestructor = true → p.contains destroyKids = true → before destroyKids callDestructor p = true) ∧
+        (p.contains destroyKids = true → p.contains (.yes "config_setting_is_aggregate(setting)") = true ∧ p.contains (.yes "setting->value.list") = true ∧
+          p.contains (.no "setting->type==CONFIG_TYPE_STRING") = true) ∧
+        (p.contains (.s "__delete(setting->value.sval)") = true ↔ p.contains (.yes "setting->type==CONFIG_TYPE_STRING") = true) ∧
+        (p.contains (.s "__delete(setting->name)") = true ↔ p.contains (.yes "setting->name") = true)) ∧
+      hasOther p = false := by
+  decide
+
+/-- `__config_list_destroy`: every element is destroyed, then the vector, then the list; a NULL list is left alone -/
+theorem CF_list_destroy :
+    ∀ p ∈ traces flow_config_list_destroy_impl,
+      (p.contains (.yes "!list") = true → p.getLast? = some (.ret "") ∧ count (.s "__delete(list)") p = 0) ∧
+      (p.contains (.no "!list") = true → p.getLast? = some (.s "__delete(list)") ∧
+        (p.contains (.yes "list->elements") = true →
+          before (.loop "for(p=list->elements,i=0;i<list->length;p++,i++)" ["__config_setting_destroy(*p)"]) (.s "__delete(list->elements)") p = true ∧
+          before (.s "__delete(list->elements)") (.s "__delete(list)") p = true)) ∧
+      hasOther p = false := by
+  decide
+
+/-- `config_setting_set_string` (fix 6140860): a mismatching setting is refused before anything is copied or freed; otherwise
+the argument is COPIED first, then the old value released, then the copy installed -/
+theorem CF_set_string :
+    ∀ p ∈ traces flow_config_setting_set_string,
+      (p.contains (.yes "setting->type!=CONFIG_TYPE_STRING") = true →
+        p.getLast? = some (.ret "(CONFIG_FALSE)") ∧ count (.s "copy=(value==NULL)?NULL:libconfig_strdup(value)") p = 0 ∧
+        count (.s "__delete(setting->value.sval)") p = 0 ∧ count (.s "setting->value.sval=copy") p = 0) ∧
+      (p.getLast? = some (.ret "(CONFIG_TRUE)") →
+        before (.s "copy=(value==NULL)?NULL:libconfig_strdup(value)") (.s "setting->value.sval=copy") p = true ∧
+        (p.contains (.s "__delete(setting->value.sval)") = true →
+          before (.s "copy=(value==NULL)?NULL:libconfig_strdup(value)") (.s "__delete(setting->value.sval)") p = true ∧
+          before (.s "__delete(setting->value.sval)") (.s "setting->value.sval=copy") p = true)) ∧
+      (p.getLast? = some (.ret "(CONFIG_TRUE)") ∨ p.getLast? = some (.ret "(CONFIG_FALSE)")) := by
+  decide
+
+theorem CF_set_include_dir :
+    traces flow_config_set_include_dir =
+      [[.s "char*copy=(include_dir==NULL)?NULL:libconfig_strdup(include_dir)", .s "__delete(config->include_dir)",
+        .s "config->include_dir=copy"]] := by
+  decide
+
 /-! ### the locale switch itself and the writer's use of it (C15) -/
 
 /-- writing happens between exactly one override and one restore of what that override returned -/
